@@ -115,6 +115,28 @@ pub fn cases_cmd(args: &[String]) {
                 }
             }
         }
+        "template" => {
+            let mut rng = Rng::new(seed ^ hash(rest) ^ 0x7E3);
+            for _ in 0..n {
+                let mut r = rng.fork();
+                let (u, p) = match rest {
+                    "direct" => gen_direct_template(&mut r),
+                    _ => panic!("unknown template {rest}"),
+                };
+                for (a, d) in [(100u32, 95u32), (0, 100), (500, 50)] {
+                    emit(
+                        &mut out,
+                        &Case {
+                            id: id(),
+                            profile: format!("template-{rest}+act{a}_{d}"),
+                            u: u.clone(),
+                            ps: vec![p.clone()],
+                            cfg: Cfg { act_add: a, act_decay: d, ..base_cfg.clone() },
+                        },
+                    );
+                }
+            }
+        }
         "repeat" => {
             // C06: the same case several times in one process (fresh solver each
             // time); the driver additionally runs the file in separate processes
@@ -236,6 +258,84 @@ pub fn cases_cmd(args: &[String]) {
                                 );
                             }
                         }
+                    }
+                }
+            }
+        }
+        "widealt" => {
+            let ns: Vec<u32> = rest.split(',').filter(|s| !s.is_empty()).map(|s| s.parse().unwrap()).collect();
+            let mut rng = Rng::new(seed ^ 0xA17);
+            let reps: u32 = get_arg(args, "--pairs").map(|s| s.parse().unwrap()).unwrap_or(60);
+            for &nn in &ns {
+                for _ in 0..reps {
+                    let k = rng.range(2, 3);
+                    let alts: Vec<(Vec<u32>, Vec<u32>)> = (0..k)
+                        .map(|_| {
+                            let group: Vec<u32> = if rng.chance(0.6) {
+                                (1..=nn).filter(|_| rng.chance(0.4)).collect()
+                            } else {
+                                vec![]
+                            };
+                            let nw = rng.range(0, 2);
+                            let wants: Vec<u32> = (0..nw).map(|_| rng.range(1, nn)).collect();
+                            (group, wants)
+                        })
+                        .collect();
+                    let (u, p) = wide_alt_universe(nn, &alts, &mut rng);
+                    emit(
+                        &mut out,
+                        &Case {
+                            id: id(),
+                            profile: format!("widealt{nn}"),
+                            u,
+                            ps: vec![p],
+                            cfg: Cfg { render: false, ..base_cfg.clone() },
+                        },
+                    );
+                }
+            }
+        }
+        "widechain" => {
+            let ns: Vec<u32> = rest.split(',').filter(|s| !s.is_empty()).map(|s| s.parse().unwrap()).collect();
+            let mut rng = Rng::new(seed ^ 0xC4A1);
+            let reps: u32 = get_arg(args, "--pairs").map(|s| s.parse().unwrap()).unwrap_or(20);
+            for &nn in &ns {
+                for _ in 0..reps {
+                    let i = rng.range(1, nn);
+                    let mut j = rng.range(1, nn);
+                    if nn > 1 {
+                        while j == i {
+                            j = rng.range(1, nn);
+                        }
+                    }
+                    let k = rng.range(2, 4) as usize;
+                    // half of the time i and j are known from the start, otherwise they (and
+                    // everything else) are revealed whenever a group happens to list them
+                    let early = rng.chance(0.5);
+                    let groups: Vec<Vec<u32>> = (0..k)
+                        .map(|gi| {
+                            let mut g: Vec<u32> = (1..=nn).filter(|_| rng.chance(0.5)).collect();
+                            if early || gi + 1 == k {
+                                g.push(i);
+                                g.push(j);
+                            }
+                            g
+                        })
+                        .collect();
+                    for want in [vec![i, j], vec![i], vec![j], vec![]] {
+                        let (mut u, p) = wide_chain_universe(nn, &groups, &want);
+                        // the preference order over the wide package varies
+                        rng.shuffle(&mut u.pkg[0].rank);
+                        emit(
+                            &mut out,
+                            &Case {
+                                id: id(),
+                                profile: format!("widechain{nn}"),
+                                u,
+                                ps: vec![p],
+                                cfg: Cfg { render: false, ..base_cfg.clone() },
+                            },
+                        );
                     }
                 }
             }
